@@ -13,9 +13,15 @@ def reply_for(rng, rid, h, size=None, status=0):
     k = S.aggr_payload(rid, s, status)
     base = len(S.wrap_v2(S.AGGR_RESP_V2, [R.T(2, k)], KEY))
     if size and size > base + 8:
-        pad = min(size - base - 4, 0xffff - base - 8)
-        if pad > 0:
-            k = k + [R.T(0x1ffe, bytes(pad), nc=True)]
+        # exactly `size` bytes in total (at most 65539 = 4 header bytes + 65535 value bytes): measure and adjust
+        size = min(size, 0xffff + 4)
+        pad = max(1, size - base - 16)          # certainly not too long; then one exact correction (every header involved is already 16 bit)
+        for _ in range(3):
+            n = len(S.wrap_v2(S.AGGR_RESP_V2, [R.T(2, k + [R.T(0x1ffe, bytes(pad), nc=True)])], KEY))
+            if n == size or pad + (size - n) < 1:
+                break
+            pad += size - n
+        k = k + [R.T(0x1ffe, bytes(pad), nc=True)]
     return S.wrap_v2(S.AGGR_RESP_V2, [R.T(2, k)], KEY)
 
 
@@ -340,7 +346,9 @@ def async_part(job, r):
     for ci in range(n):
         nreq = rng.choice([1, 1, 2, 3, 5, 8, 20, 40])
         hashes = [R.H(1, b'c14/%d/%d/%d' % (seed, ci, j)) for j in range(nreq)]
-        sizes = [rng.choice([None, None, 300, 1000, 5000, 65000, 65535 + 4]) if nreq <= 5 else None for _ in range(nreq)]
+        sizes = [rng.choice([None, None, 300, 1000, 5000, 65000, 65535 + 4, 65535 + 2, 65535 + 3]) if nreq <= 5 else None for _ in range(nreq)]
+        if ci == 1:
+            sizes[0] = 65535 + 4        # at least one conversation per worker carries a PDU of the maximum size
         order = list(range(nreq))
         if rng.random() < 0.5:
             rng.shuffle(order)
@@ -374,6 +382,15 @@ def async_part(job, r):
                 cuts = sorted(rng.sample(range(1, L), min(k, L - 1)))
                 variants.append(('split@%d' % k, '-', (lambda st, cuts=cuts: split_stream(st, cuts)), None))
             variants.append(('split-at-4-bytes', '-', (lambda st: split_stream(st, [1, 2, 3, 4, 5])), None))
+        # a chunk boundary inside the last bytes of every large PDU (the receive buffer has to hold header + 65535 value bytes)
+        pos = 0
+        for j in order:
+            ln = len(reply_for(random.Random('%s/%d' % (cv.label, j)), base['ids'][j], hashes[j], sizes[j]))
+            pos += ln
+            if ln >= 60000:
+                for k in (1, 2, 3, 4, 5):
+                    variants.append(('split-near-end-of-large-pdu', '-', (lambda st, c=pos - k: split_stream(st, [c])), None))
+                variants.append(('split-near-end-of-large-pdu', '-', (lambda st, a=pos - ln + 4, b=pos - 1: split_stream(st, [a, b])), None))
         variants.append(('bytewise-head', '-', (lambda st: [st[i:i + 1] for i in range(min(len(st), 40))] + [st[40:]]), None))
         # client output: partial sends and would-block
         for sc in ('1,1,1,1,1,1,1,1', '1,0,1,0,1,0', '0', '0,0,0,5,0', '50,0', '3,0,3,0,3,0,1000,0', '97'):
